@@ -45,6 +45,8 @@ impl Default for SupervisionTree {
 impl SupervisionTree {
     /// Transactionally replace a child's supervisor and update both parents' child sets.
     pub(crate) fn link(child: &ActorCell, supervisor: ActorCell) -> bool {
+        #[cfg(feature = "verif")]
+        crate::verif::point("tree.link");
         let _mutation_guard = TREE_MUTATION_LOCK.lock().unwrap();
 
         if child.get_status() >= super::actor_cell::ActorStatus::Draining
@@ -84,6 +86,8 @@ impl SupervisionTree {
 
     /// Unlink a child if `supervisor` is still its current supervisor.
     pub(crate) fn unlink(child: &ActorCell, supervisor: &ActorCell) {
+        #[cfg(feature = "verif")]
+        crate::verif::point("tree.unlink");
         let _mutation_guard = TREE_MUTATION_LOCK.lock().unwrap();
         let mut current_supervisor = child.inner.tree.supervisor.lock().unwrap();
         if !current_supervisor
@@ -102,6 +106,8 @@ impl SupervisionTree {
 
     /// Close this actor's child set and detach the children for iterative termination.
     pub(crate) fn take_children(parent: &ActorCell) -> Vec<ActorCell> {
+        #[cfg(feature = "verif")]
+        crate::verif::point("tree.take");
         let _mutation_guard = TREE_MUTATION_LOCK.lock().unwrap();
         let mut children = parent.inner.tree.children.lock().unwrap();
         let cells = children
